@@ -202,12 +202,35 @@ def comparable_model(out):
     return {"transcript": tr, "hdrs": out["hdrs"], "fence": True}
 
 
-def same(impl, model):
+def determined_headers(case):
+    """positions k (POST index, the fence included) whose session header the property fixes:
+    a session id was issued on an accepted response before POST k, and no error-status answer
+    has offered another one since; with the value the property demands"""
+    out = {}
+    last, clean = None, True
+    behaviours = [r["b"] for r in case["reqs"]] + [None]
+    for k, b in enumerate(behaviours):
+        if last is not None and clean:
+            out[k] = last
+        if b is None or "exc" in b or b.get("sess") is None:
+            continue
+        if b["status"] < 400:
+            last, clean = b["sess"], True
+        else:
+            clean = False
+    return out
+
+
+def same(case, impl, model):
     """position-wise: a passed-through message must be equal; a synthesised one must be a
-    terminal (result or error, whatever its payload) with the same typed id"""
+    terminal (result or error, whatever its payload) with the same typed id; session headers
+    are compared where the property determines them"""
     from .core import canon
-    if impl["fence"] != model["fence"] or impl["hdrs"] != model["hdrs"]:
+    if impl["fence"] != model["fence"] or len(impl["hdrs"]) != len(model["hdrs"]):
         return False
+    for k in determined_headers(case):
+        if k < len(impl["hdrs"]) and impl["hdrs"][k] != model["hdrs"][k]:
+            return False
     a, b = impl["transcript"], model["transcript"]
     if len(a) != len(b):
         return False
